@@ -488,7 +488,7 @@ class CheckpointSchedule(ABC):
         """Whether at least one action has been yielded.
         """
 
-        return hasattr(self, "_iter")
+        return hasattr(self, "iter")
 
     def finalize(self, n):
         """Indicate the number of forward steps in the initial forward
